@@ -1,5 +1,6 @@
 import CotengraVerif.Model.Reuse
 import CotengraVerif.Lemmas.HyperLemmas
+import CotengraVerif.Props.C08
 
 /-!
 # C16 — one optimizer object can serve many contractions, in sequence or across threads
@@ -255,6 +256,255 @@ theorem runSched_inv (cfg : Cfg) (hg : Good cfg) (s : Sys) (sched : List Nat) (h
   | nil => exact hinv
   | cons t rest ih => exact ih (step cfg s t) (step_inv cfg hg s t hinv)
 
+/-! ## no spurious errors: every call that can return a tree does -/
+
+/-- the sub-searches always have a successful trial, and successful trials carry trees -/
+def GoodTrials (cfg : Cfg) : Prop :=
+  ∀ t i, (∃ e ∈ cfg.trials t i, slt e.2.score none = true) ∧
+    ∀ e ∈ cfg.trials t i, slt e.2.score none = true → e.2.tree.isSome = true
+
+theorem fresh_search_has_tree (q : Query) (log : Log)
+    (h1 : ∃ e ∈ log, slt e.2.score none = true)
+    (h2 : ∀ e ∈ log, slt e.2.score none = true → e.2.tree.isSome = true) :
+    (runLog HState.init (stamp q log)).tree.isSome = true := by
+  obtain ⟨e, he, hfin⟩ := h1
+  have hmem : (e.1, { e.2 with tree := e.2.tree.map fun _ => q.net }) ∈ stamp q log :=
+    List.mem_map.2 ⟨e, he, rfl⟩
+  obtain ⟨b, hb, _⟩ := C08.some_finite_gives_winner none (stamp q log) _ hmem hfin
+  obtain ⟨⟨s, hbm, _, _⟩, hbfin⟩ := C08.winner_is_a_finite_trial none (stamp q log) b hb
+  obtain ⟨e', he', heq⟩ := List.mem_map.1 hbm
+  have htree : b.trial.tree.isSome = true := by
+    have h3 := h2 e' he'
+    have : b.trial = { e'.2 with tree := e'.2.tree.map fun _ => q.net } := by
+      have := congrArg Prod.snd heq; simpa using this.symm
+    rw [this] at hbfin ⊢
+    simp only [Option.isSome_map]
+    exact h3 hbfin
+  have hinit : (HState.init : HState) = HState.init none := rfl
+  rw [hinit]
+  simp only [HState.tree, hb]
+  exact htree
+
+/-- no answer so far was an exception -/
+def NoErr (th : Thread) : Prop := ∀ q, (q, (none : Option Nat)) ∉ th.results
+
+/-- the entry `hash_query` saw is still in the cache -/
+def CacheOk (r : RState) (q : Query) (missing : Bool) : Prop :=
+  missing = false → (r.cache q.key).isSome = true
+
+/-- what a thread needs at its program point in order not to raise -/
+def PcLive (t : Nat) (r : RState) : PC → Prop
+  | .hashed q m => CacheOk r q m
+  | .ran q m opt => CacheOk r q m ∧ opt.tree.isSome = true
+  | .stored q m _ => CacheOk r q m ∧ ∃ opt, r.subopts t = some opt ∧ opt.tree.isSome = true
+  | .compare _ _ _ => ∃ opt, r.subopts t = some opt ∧ opt.tree.isSome = true
+  | .have _ true _ => ∃ opt, r.subopts t = some opt ∧ opt.tree.isSome = true
+  | _ => True
+
+structure LiveInv (t : Nat) (th : Thread) (r : RState) : Prop where
+  noerr : NoErr th
+  pc : PcLive t r th.pc
+
+theorem noErr_finish {th : Thread} (h : NoErr th) (q : Query) (res : Option Nat)
+    (hr : res.isSome = true) : NoErr (th.finish q res) := by
+  intro q' hm
+  simp only [Thread.finish, List.mem_append, List.mem_singleton, Prod.mk.injEq] at hm
+  rcases hm with hm | ⟨_, h2⟩
+  · exact h q' hm
+  · rw [← h2] at hr; simp at hr
+
+theorem noErr_congr {th th' : Thread} (h : NoErr th) (he : th'.results = th.results) : NoErr th' := by
+  intro q hm; rw [he] at hm; exact h q hm
+
+/-- cache entries are never removed -/
+theorem stepLocal_cache_mono (cfg : Cfg) (t : Nat) (th : Thread) (r : RState) (pl : HState)
+    (k : Nat) (h : (r.cache k).isSome = true) :
+    ((stepLocal cfg t th r pl).r.cache k).isSome = true := by
+  unfold stepLocal
+  cases th.pc with
+  | idle =>
+    simp only
+    cases th.queue with
+    | nil => exact h
+    | cons q rest =>
+      simp only
+      cases cfg.mode <;> simp only <;> (try split) <;> exact h
+  | gotOpt q => simp only; cases cfg.mode <;> exact h
+  | hashed q m =>
+    simp only
+    split
+    · split
+      · exact h
+      · split <;> exact h
+    · split <;> exact h
+  | ran q m opt => exact h
+  | stored q m con =>
+    simp only
+    split
+    · split <;> exact h
+    · simp only [updFn]; split <;> simp_all
+  | compare q con old =>
+    simp only
+    split
+    · simp only [updFn]; split <;> simp_all
+    · exact h
+  | «have» q b con =>
+    simp only
+    split
+    · split <;> exact h
+    · exact h
+
+theorem stepLocal_live (cfg : Cfg) (hco : cfg.cacheOnly = false) (hgt : GoodTrials cfg) (t : Nat)
+    (th : Thread) (r : RState) (pl : HState) (hfresh : cfg.mode = .autoPlain → cfg.freshPlain = true)
+    (hinv : LiveInv t th r) :
+    LiveInv t (stepLocal cfg t th r pl).th (stepLocal cfg t th r pl).r := by
+  obtain ⟨hne, hpc⟩ := hinv
+  have hsub := fresh_search_has_tree
+  unfold stepLocal
+  cases hpcv : th.pc with
+  | idle =>
+    simp only
+    cases hq : th.queue with
+    | nil => simp only; exact ⟨hne, by rw [hpcv]; trivial⟩
+    | cons q rest =>
+      simp only
+      cases hm : cfg.mode with
+      | reusable =>
+        simp only
+        refine ⟨noErr_congr hne rfl, ?_⟩
+        intro hc
+        cases hk : r.cache q.key <;> simp_all
+      | autoCached =>
+        simp only
+        split
+        · exact ⟨noErr_congr hne rfl, trivial⟩
+        · exact ⟨noErr_finish (noErr_congr hne rfl) q _ rfl, trivial⟩
+      | autoPlain =>
+        simp only
+        split
+        · exact ⟨noErr_congr hne rfl, trivial⟩
+        · exact ⟨noErr_finish (noErr_congr hne rfl) q _ rfl, trivial⟩
+  | gotOpt q =>
+    simp only
+    cases hm : cfg.mode with
+    | autoPlain =>
+      simp only [hfresh hm, if_true]
+      exact ⟨noErr_finish (noErr_congr hne rfl) q _
+        (hsub q _ (hgt t th.nsearch).1 (hgt t th.nsearch).2), trivial⟩
+    | reusable =>
+      simp only
+      refine ⟨noErr_congr hne rfl, ?_⟩
+      intro hc
+      cases hk : r.cache q.key <;> simp_all
+    | autoCached =>
+      simp only
+      refine ⟨noErr_congr hne rfl, ?_⟩
+      intro hc
+      cases hk : r.cache q.key <;> simp_all
+  | hashed q missing =>
+    simp only
+    rw [hpcv] at hpc
+    have htree := hsub q _ (hgt t th.nsearch).1 (hgt t th.nsearch).2
+    split
+    · simp only [hco, Bool.false_eq_true, if_false]
+      split
+      · rename_i hnone; rw [hnone] at htree; simp at htree
+      · exact ⟨noErr_congr hne rfl, hpc, htree⟩
+    · rename_i hrun
+      have hmf : missing = false := by
+        cases missing <;> simp_all
+      obtain ⟨con, hcon⟩ := Option.isSome_iff_exists.1 (hpc hmf)
+      rw [hcon]
+      exact ⟨noErr_congr hne rfl, trivial⟩
+  | ran q missing opt =>
+    simp only
+    rw [hpcv] at hpc
+    exact ⟨noErr_congr hne rfl, hpc.1, opt, by simp, hpc.2⟩
+  | stored q missing con =>
+    simp only
+    rw [hpcv] at hpc
+    obtain ⟨hc, hopt⟩ := hpc
+    split
+    · rename_i hcond
+      have hmf : missing = false := by
+        cases missing <;> simp_all
+      obtain ⟨old, hold⟩ := Option.isSome_iff_exists.1 (hc hmf)
+      rw [hold]
+      exact ⟨noErr_congr hne rfl, hopt⟩
+    · exact ⟨noErr_congr hne rfl, hopt⟩
+  | compare q con old =>
+    simp only
+    rw [hpcv] at hpc
+    split
+    · exact ⟨noErr_congr hne rfl, hpc⟩
+    · exact ⟨noErr_finish hne q _ rfl, trivial⟩
+  | «have» q searched con =>
+    simp only
+    rw [hpcv] at hpc
+    cases searched with
+    | true =>
+      simp only [if_true]
+      obtain ⟨opt, hopt, htree⟩ := hpc
+      rw [hopt]
+      exact ⟨noErr_finish hne q _ htree, trivial⟩
+    | false =>
+      simp only [Bool.false_eq_true, if_false]
+      exact ⟨noErr_finish hne q _ rfl, trivial⟩
+
+theorem pcLive_frame (t' : Nat) (r r' : RState) (pc : PC) (hsub : r'.subopts t' = r.subopts t')
+    (hmono : ∀ k, (r.cache k).isSome = true → (r'.cache k).isSome = true)
+    (h : PcLive t' r pc) : PcLive t' r' pc := by
+  cases pc with
+  | idle => trivial
+  | gotOpt q => trivial
+  | hashed q m => exact fun hm => hmono _ (h hm)
+  | ran q m opt => exact ⟨fun hm => hmono _ (h.1 hm), h.2⟩
+  | stored q m con => exact ⟨fun hm => hmono _ (h.1 hm), by simpa [hsub] using h.2⟩
+  | compare q con old => simpa [PcLive, hsub] using h
+  | «have» q searched con =>
+    cases searched with
+    | true => simpa [PcLive, hsub] using h
+    | false => trivial
+
+def Live (cfg : Cfg) (s : Sys) : Prop := ∀ t, LiveInv t (s.threads t) (s.objs (cfg.objOf t))
+
+theorem step_live (cfg : Cfg) (hco : cfg.cacheOnly = false) (hgt : GoodTrials cfg)
+    (hg : Good cfg) (s : Sys) (t : Nat) (h : Live cfg s) : Live cfg (step cfg s t) := by
+  intro t'
+  unfold step
+  by_cases htt : t' = t
+  · subst htt
+    simp only [updFn_same]
+    exact stepLocal_live cfg hco hgt t' _ _ _ hg (h t')
+  · obtain ⟨hne, hpc⟩ := h t'
+    simp only [updFn_other _ _ _ _ htt]
+    refine ⟨hne, ?_⟩
+    by_cases ho : cfg.objOf t' = cfg.objOf t
+    · rw [ho, updFn_same]
+      rw [ho] at hpc
+      exact pcLive_frame t' _ _ _ (stepLocal_subopts_other cfg t t' _ _ _ htt)
+        (fun k hk => stepLocal_cache_mono cfg t _ _ _ k hk) hpc
+    · rw [updFn_other _ _ _ _ ho]; exact hpc
+
+theorem live_start (cfg : Cfg) (queues : Nat → List Query) : Live cfg (Sys.start queues) := by
+  intro t
+  exact ⟨by intro q h; simp [Sys.start] at h, by simp [Sys.start, PcLive]⟩
+
+/-- **no_spurious_errors** — for every schedule and any number of threads: if every sub-search
+    has at least one successful trial (and successful trials carry trees) and `cache_only` is off,
+    then no call ever raises — in particular `last_opt` is never `None` when it is read, and a
+    cache entry seen by `hash_query` is still there when it is fetched.  Together with
+    `per_thread_isolation`: every call returns a tree of its own contraction. -/
+theorem no_spurious_errors (cfg : Cfg) (hg : Good cfg) (hco : cfg.cacheOnly = false)
+    (hgt : GoodTrials cfg) (queues : Nat → List Query) (sched : List Nat) (t : Nat) (q : Query) :
+    (q, (none : Option Nat)) ∉ ((runSched cfg (Sys.start queues) sched).threads t).results := by
+  have key : ∀ (sched : List Nat) (s : Sys), Live cfg s → Live cfg (runSched cfg s sched) := by
+    intro sched
+    induction sched with
+    | nil => intro s hs; exact hs
+    | cons t0 rest ih => intro s hs; exact ih _ (step_live cfg hco hgt hg s t0 hs)
+  exact (key sched _ (live_start cfg queues) t).noerr q
+
 /-! ## the property -/
 
 /-- **per_thread_isolation** — for every schedule, any number of threads with any queues of
@@ -412,6 +662,13 @@ def raceCfg (ov : Overwrite) : Cfg :=
   { mode := .reusable, overwrite := ov, trials := raceTrials, objOf := fun _ => 0 }
 
 def raceStart : Sys := Sys.start fun t => if t = 0 then [qa, qb] else if t = 1 then [qb, qa] else []
+
+/-- the hypotheses of `no_spurious_errors` are satisfiable -/
+example : GoodTrials (raceCfg .improved) ∧ (raceCfg .improved).cacheOnly = false ∧
+    Good (raceCfg .improved) := by
+  refine ⟨?_, rfl, fun h => by cases h⟩
+  intro t i
+  simp [raceCfg, raceTrials, tr]
 
 /-- thread 1's store lands between thread 0's store and thread 0's read of `last_opt`: each still
     gets its own tree (they write different keys of `_suboptimizers`) -/
